@@ -131,8 +131,8 @@ def check(run: Run, prog: Program, model: Model, tier: str) -> None:
                 else:
                     run.holds("VALIDATE-FIRST", construct, site, "validation + raise on errors dominates every return", nontrivial=True)
     run.analysed["substitutor_paths"] = npaths
-    run.floor("ONLY-SUBSTITUTIONERROR", 100)
-    run.floor("VALIDATE-FIRST", 100)
+    run.floor("ONLY-SUBSTITUTIONERROR", 70)
+    run.floor("VALIDATE-FIRST", 70)
     run.floor("ELL-TYPESTATE", 30)
     run.floor("ANY-NONEMPTY", 3)
 
